@@ -1,6 +1,7 @@
 import Lean.Data.Json
 import Std.Data.HashMap
 import EduceModel.Spec.Eq
+import EduceModel.Spec.Cmp
 /-
   Line-protocol driver: one JSON array per line in, one JSON array per line out.
   The executable definitions it runs are exactly the ones the theorems are about
@@ -18,26 +19,31 @@ structure FieldJ where
   name : Educe.Ident
   ty : String
   eq : EqField
+  ord : OrdField
   deriving Inhabited
 
 structure VariantJ where
   name : Educe.Ident
   shape : Shape
   fields : Array FieldJ
+  disc : Option Int
   deriving Inhabited
 
 structure DefJ where
   isEnum : Bool
   variants : Array VariantJ
+  ordMode : String     -- "ord" | "partialord" | "both"
   deriving Inhabited
 
 structure St where
   rel : Std.HashMap (String × Nat × Nat) Rel := {}
   methB : Std.HashMap (String × Nat × Nat × Nat) Bool := {}   -- (kind, id, a, b) ↦ bool result
+  methO : Std.HashMap (String × Nat × Nat × Nat) (Option Ord3) := {}
   defs : Std.HashMap Nat DefJ := {}
 
 def jstr (j : Json) : String := (j.getStr?).toOption.getD ""
 def jnat (j : Json) : Nat := (j.getNat?).toOption.getD 0
+def jint (j : Json) : Int := (j.getInt?).toOption.getD 0
 def jbool (j : Json) : Bool := (j.getBool?).toOption.getD false
 def jarr (j : Json) : Array Json := (j.getArr?).toOption.getD #[]
 def jfield (j : Json) (k : String) : Json := (j.getObjVal? k).toOption.getD Json.null
@@ -52,19 +58,31 @@ def parseShape (s : String) : Shape :=
 def parseField (j : Json) : FieldJ :=
   let name := (jstr (jfield j "name")).toList
   let e := jfield j "eq"
+  let o := jfield j "ord"
   { name := name, ty := jstr (jfield j "ty"),
     eq := { name := name, ignore := jbool (jfield e "ignore"),
-            method := (jopt (jfield e "method")).map jnat } }
+            method := (jopt (jfield e "method")).map jnat },
+    ord := { name := name, ignore := jbool (jfield o "ignore"),
+             method := (jopt (jfield o "method")).map jnat,
+             rank := (jopt (jfield o "rank")).map jint } }
 
 def parseDef (j : Json) : DefJ :=
   { isEnum := jstr (jfield j "kind") == "enum",
+    ordMode := jstr (jfield j "ordmode"),
     variants := (jarr (jfield j "variants")).map fun v =>
       { name := (jstr (jfield v "name")).toList, shape := parseShape (jstr (jfield v "shape")),
+        disc := (jopt (jfield v "disc")).map jint,
         fields := (jarr (jfield v "fields")).map parseField } }
 
 def DefJ.eqType (d : DefJ) : EqType :=
   let mk (v : VariantJ) : EqVariant :=
     { name := v.name, shape := v.shape, fields := v.fields.toList.map (·.eq) }
+  if d.isEnum then .enum (d.variants.toList.map mk)
+  else .struct (mk (d.variants[0]!))
+
+def DefJ.ordType (d : DefJ) : OrdType :=
+  let mk (v : VariantJ) : OrdVariant :=
+    { name := v.name, shape := v.shape, fields := v.fields.toList.map (·.ord), disc := v.disc }
   if d.isEnum then .enum (d.variants.toList.map mk)
   else .struct (mk (d.variants[0]!))
 
@@ -78,6 +96,21 @@ def DefJ.tyOf (d : DefJ) (p : Pos) : String :=
 def St.eqOps (st : St) (d : DefJ) : EqOps Nat :=
   { ne := fun p x y => ((st.rel.get? (d.tyOf p, x, y)).map (·.ne)).getD false,
     method := fun m x y => (st.methB.get? ("eq", m, x, y)).getD false }
+
+def St.ordOps (st : St) (d : DefJ) : OrdOps Nat :=
+  { cmp := fun p x y => ((st.rel.get? (d.tyOf p, x, y)).map (·.cmp)).getD .eq,
+    pcmp := fun p x y => ((st.rel.get? (d.tyOf p, x, y)).map (·.pcmp)).getD none,
+    cmpM := fun m x y => ((st.methO.get? ("cmp", m, x, y)).getD none).getD .eq,
+    pcmpM := fun m x y => (st.methO.get? ("pcmp", m, x, y)).getD none }
+
+def showO3 : Ord3 → String
+  | .lt => "lt" | .eq => "eq" | .gt => "gt"
+def showOO3 : Option Ord3 → String
+  | some o => showO3 o | none => "none"
+def showModelCmp : Option (Option (Option Ord3)) → String   -- rejected / unbound / result
+  | none => "rejected"
+  | some none => "unbound"
+  | some (some r) => showOO3 r
 
 def showOB : Option Bool → String
   | some true => "true" | some false => "false" | none => "unbound"
@@ -120,7 +153,26 @@ def handle (st : St) (j : Json) : St × Option Json :=
       let m := (Sem.evalEq ops t (Gen.PartialEq.body t) x y).map (!·)
       let s := !Spec.eq ops t x y
       (st, some (Json.arr #["ne", a[1]!, a[2]!, a[3]!, a[4]!, a[5]!, showOB m, showOB (some s)]))
-  else if op == "metho" || op == "methh" || op == "hashv" then (st, none)
+  else if op == "metho" then
+    -- ["metho", kind, id, a, b, "lt|eq|gt|none"]
+    ({ st with methO := st.methO.insert (jstr a[1]!, jnat a[2]!, jnat a[3]!, jnat a[4]!) (parseOrd3 (jstr a[5]!)) }, none)
+  else if op == "cmp" || op == "pcmp" || op == "cmpw" || op == "pcmpw" then
+    match st.defs.get? (jnat a[1]!) with
+    | none => (st, some (Json.arr #["error", "unknown def"]))
+    | some d =>
+      let t := d.ordType
+      let x : Val Nat := ⟨jnat a[2]!, natList a[3]!⟩
+      let y : Val Nat := ⟨jnat a[4]!, natList a[5]!⟩
+      let ops := st.ordOps d
+      -- `cmp` is always the total body. `partial_cmp` is the partial body, except when Ord is
+      -- educed too: then the Ord handler emits `Some(Ord::cmp(self, other))`.
+      -- `cmpw`/`pcmpw`: the same comparison with the operands embedded next to other bytes;
+      -- the model has no layout parameter, so the answer is the same by construction.
+      let partial_ := (op == "pcmp" || op == "pcmpw") && d.ordMode != "both"
+      let m := (Gen.Ord.body t).map fun bd => Sem.evalCmp ops partial_ t bd x y
+      let s := Spec.cmp ops partial_ t x y
+      (st, some (Json.arr #[op, a[1]!, a[2]!, a[3]!, a[4]!, a[5]!, showModelCmp m, showOO3 s]))
+  else if op == "methh" || op == "hashv" then (st, none)
   else (st, some (Json.arr #["error", Json.str ("unknown op " ++ op)]))
 
 partial def loop (h : IO.FS.Stream) (out : IO.FS.Stream) (st : St) : IO Unit := do
